@@ -3,6 +3,7 @@
 import GoSquare.Properties.C01
 import GoSquare.Properties.C05
 import GoSquare.Properties.C06
+import GoSquare.Properties.C07
 import GoSquare.Properties.C08
 import GoSquare.Properties.C09
 import GoSquare.Properties.C10
@@ -35,6 +36,15 @@ import GoSquare.Properties.C20
 #print axioms GoSquare.C06.padding_within_reservation
 #print axioms GoSquare.appendTx_spec
 #print axioms GoSquare.appendBlobTx_spec
+#print axioms GoSquare.C07.build_selection_and_side
+#print axioms GoSquare.C07.select_eq
+#print axioms GoSquare.C07.estimate_eq
+#print axioms GoSquare.C07.minSide_eq
+#print axioms GoSquare.C07.subTreeWidth_eq
+#print axioms GoSquare.C07.blobShares_eq
+#print axioms GoSquare.C07.leastPow2Ge_eq
+#print axioms GoSquare.exportCore_length
+#print axioms GoSquare.writeSquare_length
 #print axioms GoSquare.C08.roundtrip
 #print axioms GoSquare.C08.write_then_parse
 #print axioms GoSquare.C08.writeAll_eq_layout
